@@ -1,3 +1,4 @@
+import Std.Tactic.BVDecide
 import Librfn.Model.Fibre
 /-! The half-window lemma (C02's crux): for true times less than 2^31 apart the signed reinterpretation of
 the 32-bit difference of their truncations *is* the true difference.  Stated for the **generated**
@@ -22,12 +23,23 @@ theorem sub_toInt_window (a b : Int) (h : -2147483648 ≤ a - b ∧ a - b < 2147
     (w32 a - w32 b).toInt = a - b := by
   rw [toInt_w32_sub, bmod_small _ h]
 
+/-- **tie T for `cyclecmp32`**: whatever `util.c` currently says (the definition is regenerated on every run), it
+    computes the 32-bit difference.  On the pinned source this closes by `rfl`; after a rewrite of the C that
+    is still the same function it closes by bit-blasting (`bv_decide`, which then adds its own axiom
+    `cyclecmp32_tie._native.bv_decide.ax_*`, allow-listed by the scheduler checks for exactly this theorem);
+    every other lemma uses the generated function only through this equation. -/
+theorem cyclecmp32_tie (a b : BitVec 32) : Librfn.Gen.Util.cyclecmp32 a b = a - b := by
+  unfold Librfn.Gen.Util.cyclecmp32
+  first
+    | rfl
+    | (simp only; rfl)
+    | bv_decide (config := { timeout := 300 })
+
 /-- `cyclecmp32(D, T) <= 0` decides `D ≤ T` inside the window (about the generated `cyclecmp32`) -/
 theorem notAfter_w32 (D T : Int) (h : -2147483648 ≤ D - T ∧ D - T < 2147483648) :
     notAfter (w32 D) (w32 T) = decide (D ≤ T) := by
-  unfold notAfter Librfn.Gen.Util.cyclecmp32
-  simp only
-  rw [sub_toInt_window D T h]
+  unfold notAfter
+  rw [cyclecmp32_tie, sub_toInt_window D T h]
   by_cases hle : D ≤ T
   · rw [decide_eq_true hle]; exact decide_eq_true (by omega)
   · rw [decide_eq_false hle]; exact decide_eq_false (by omega)
